@@ -115,8 +115,9 @@ def main():
     dst = os.path.join(VERIF, "benign", name)
     os.makedirs(dst, exist_ok=True)
     shutil.copy(os.path.join(src, "patch.diff"), os.path.join(dst, "patch.diff"))
-    if os.path.exists(os.path.join(src, "notes.md")):
-        shutil.copy(os.path.join(src, "notes.md"), os.path.join(dst, "notes.md"))
+    for extra_file in ("notes.md", "demo.py"):
+        if os.path.exists(os.path.join(src, extra_file)):
+            shutil.copy(os.path.join(src, extra_file), os.path.join(dst, extra_file))
     json.dump(res, open(os.path.join(dst, "meta.json"), "w"), indent=1)
     sh(f"git -C /repo worktree remove --force {wt}")
     shutil.rmtree(wt, ignore_errors=True)
